@@ -31,6 +31,7 @@ structure Obs where
   stamps : List (String × List Nat × Nat × Nat) := []
   maxin : Option Nat := none
   gids : Option Nat := none
+  oncaller : Option Nat := none
   ctxseen : Option Nat := none
   evnames : Option Nat := none
   quiesced : Option Nat := none
@@ -60,6 +61,7 @@ def Obs.addLine (o : Obs) (f : List String) : Obs :=
     else o
   | ["maxin", n] => { o with maxin := n.toNat? }
   | ["gids", n] => { o with gids := n.toNat? }
+  | ["oncaller", n] => { o with oncaller := n.toNat? }
   | ["ctxseen", n] => { o with ctxseen := n.toNat? }
   | ["evnames", n] => { o with evnames := n.toNat? }
   | ["quiesced", n] => { o with quiesced := n.toNat? }
@@ -196,6 +198,12 @@ def checkCommon (p : Prog) (sc : Scenario) (defaultConc : Nat) (o : Obs) : List 
    (match o.gids with
     | some g => if g > bound + 2 then [("gids", s!"{g} distinct goroutines ran user code or emitter callbacks, bound {bound}+2")] else []
     | none => [("gids", "missing")])) ++
+   -- user functions (tasks, predicates, element and End functions) run on worker goroutines only: a function
+   -- executing on the goroutine that called the directive runs beside the N bodies the workers may be running
+   (match o.oncaller with
+    | some 0 => []
+    | some n => [("oncaller", s!"{n} user function call(s) ran on the goroutine that called the directive")]
+    | none => [("oncaller", "missing")]) ++
   (if o.ctxseen != some 1 then [("ctxseen", "a function did not see the directive's context")] else []) ++
   (if o.evnames != some 1 then [("events", "an emitter was initialised with an unexpected name")] else []) ++
   (if o.quiesced != some 1 then [("quiesce", "goroutines still alive after the directive returned")] else []) ++
